@@ -402,8 +402,9 @@ func (sh *Shell) expandParam(p *ShParam) Str {
 	name := p.Name
 	var val Str
 	isPos := false
-	if len(name) == 1 && name[0] >= '0' && name[0] <= '9' {
-		val = sh.positional(int(name[0] - '0'))
+	if n, err := strconv.Atoi(name); err == nil && n >= 0 && name[0] != '-' && name[0] != '+' {
+		// $1 .. $9 and ${10}, ${11}, ... (an unbraced $10 reaches this as name "1" followed by a literal 0)
+		val = sh.positional(n)
 		isPos = true
 	} else if name == "?" {
 		switch s := sh.Status.(type) {
